@@ -2,6 +2,7 @@ package sim
 
 import (
 	"bytes"
+	"math"
 	"context"
 	"fmt"
 	"os"
@@ -284,6 +285,16 @@ func (c11) Gen(rs uint64, tier string, race bool) interface{} {
 	r := NewRand(rs)
 	c := &C11Case{Mode: "proc", Files: map[string]string{}}
 	c.Seed = int64(r.Intn(1 << 30))
+	switch r.Intn(24) {
+	case 0:
+		c.Seed = -int64(2 + r.Intn(100000)) // only -1 means "no seed"
+	case 1:
+		c.Seed = math.MinInt64
+	case 2:
+		c.Seed = 0
+	case 3:
+		c.Seed = math.MaxInt64
+	}
 	c.Threads = r.Pick(2, 3, 4, 8, 16)
 	c.Gomax = r.Pick(1, 4, 16)
 	c.MapSeed = [2]uint64{r.U64() >> 1, r.U64() >> 1}
